@@ -74,25 +74,28 @@ type wireEntry struct {
 }
 
 type wireOp struct {
-	token      string
-	kind       string // query | exec | batch
-	stmt       string
-	cons       gocql.Consistency
-	serial     gocql.SerialConsistency
-	pageSize   int // -1: session default
-	pageState  []byte
-	tsMode     int // 0 session default (on), 1 off, 2 explicit
-	ts         int64
-	payload    map[string][]byte
-	trace      bool
-	named      bool
-	noSkipMeta bool
-	binds      []wireBind
-	batchType  gocql.BatchType
-	entries    []wireEntry
-	consumer   int
-	resp       wireResp
-	invokeAt   time.Time
+	token     string
+	kind      string // query | exec | batch
+	stmt      string
+	cons      gocql.Consistency
+	serial    gocql.SerialConsistency
+	pageSize  int // -1: session default
+	pageState []byte
+	tsMode    int // 0 session default (on), 1 off, 2 explicit
+	ts        int64
+	payload   map[string][]byte
+	// inexpressible: the request asks for something the negotiated version cannot carry (a
+	// custom payload before protocol 4); it must fail on the client, nothing of it is sent
+	inexpressible bool
+	trace         bool
+	named         bool
+	noSkipMeta    bool
+	binds         []wireBind
+	batchType     gocql.BatchType
+	entries       []wireEntry
+	consumer      int
+	resp          wireResp
+	invokeAt      time.Time
 
 	mainSeen int
 }
@@ -154,6 +157,20 @@ func runWire(e *Env) {
 		cl.AuthClass = "org.apache.cassandra.auth.PasswordAuthenticator"
 		cfg.Authenticator = gocql.PasswordAuthenticator{Username: "user", Password: "secret"}
 		k.Fault("swarm.authentication")
+		if proto >= 2 && tp.Chance(1, 2) {
+			// a mechanism with several steps: every AUTH_RESPONSE must carry the token the
+			// authenticator produced for that step
+			cl.AuthClass = "com.example.StepAuthenticator"
+			cl.AuthRounds = 2 + tp.Next(3)
+			cfg.Authenticator = wireStepAuth{step: 0}
+			cl.OnAuthResponse = func(sc *node.SConn, round int, token []byte) {
+				want := wireStepToken(round)
+				if string(token) != want {
+					k.Violate("C03", "C03/auth-response-token", "conn %s: AUTH_RESPONSE of step %d carries %q, the authenticator produced %q", sc.C.Name, round, token, want)
+				}
+			}
+			k.Fault("swarm.authentication-in-steps")
+		}
 	}
 	switch compName {
 	case "snappy":
@@ -287,6 +304,9 @@ func runWire(e *Env) {
 				return
 			}
 			op.mainSeen++
+			if op.inexpressible {
+				k.Violate("C03", "C03/inexpressible-request-sent", "%s asks for a custom payload on protocol %d, which cannot carry one; the request was sent all the same", op.token, proto)
+			}
 			if rq.Query != op.stmt {
 				k.Violate("C03", "C03/query-statement-differs", "QUERY carries %q, the caller's statement is %q", rq.Query, op.stmt)
 			}
@@ -300,6 +320,9 @@ func runWire(e *Env) {
 			}
 			op := ops[p.token]
 			op.mainSeen++
+			if op.inexpressible {
+				k.Violate("C03", "C03/inexpressible-request-sent", "%s asks for a custom payload on protocol %d, which cannot carry one; the request was sent all the same", op.token, proto)
+			}
 			wireCheckParams(k, op, rq, proto, keyspace, pageDefault, op.binds)
 			send(wireBuildResp(op, rq, proto), strings.ToUpper(op.resp.kind)+" "+p.token)
 		case cqlspec.OpBatch:
@@ -351,14 +374,16 @@ func runWire(e *Env) {
 	}
 	closed := make(chan struct{})
 	go func() { sess.Close(); close(closed) }()
-	k.SettleUntil(20*time.Second, 50*time.Millisecond, cl.Process, func() bool {
+	if !k.SettleUntil(20*time.Second, 50*time.Millisecond, cl.Process, func() bool {
 		select {
 		case <-closed:
 			return true
 		default:
 			return false
 		}
-	})
+	}) && k.Violation() == nil {
+		k.Violate("C06", "C06/session-close-hangs", "Session.Close did not return within 20 simulated seconds after a fault-free run; driver goroutines:\n%s", strings.Join(DriverGoroutines(), "\n\n"))
+	}
 	cl.CloseAll()
 	k.SettleUntil(20*time.Second, 100*time.Millisecond, nil, func() bool { return len(kernel.BubbleGoroutines()) == 0 })
 }
@@ -436,6 +461,10 @@ func wireGenOp(k *kernel.Kernel, token string, proto int) *wireOp {
 			op.payload["k0"] = []byte{}
 		}
 		k.Fault("req.custom-payload")
+	} else if proto < 4 && tp.Chance(1, 12) {
+		op.payload = map[string][]byte{"k1": {1, 2, 3}}
+		op.inexpressible = true
+		k.Fault("req.custom-payload-before-v4")
 	}
 	if tp.Chance(1, 5) {
 		op.trace = true
@@ -750,6 +779,9 @@ func wireCheckBatch(k *kernel.Kernel, ops map[string]*wireOp, prepared map[strin
 		return
 	}
 	op.mainSeen++
+	if op.inexpressible {
+		k.Violate("C03", "C03/inexpressible-request-sent", "%s asks for a custom payload on protocol %d, which cannot carry one; the request was sent all the same", op.token, proto)
+	}
 	what := "BATCH " + op.token
 	if rq.BatchType != byte(op.batchType) {
 		k.Violate("C03", "C03/batch-type", "%s: type %d on the wire, caller asked %d", what, rq.BatchType, op.batchType)
@@ -800,6 +832,34 @@ func bindArgs(bs []wireBind) []interface{} {
 }
 
 func wireRunOp(k *kernel.Kernel, sess *gocql.Session, op *wireOp, proto int, tracer *wireTracer) {
+	if op.inexpressible {
+		// the driver refuses by panicking on the caller's goroutine or by returning an error;
+		// either way the node must not see the request (checked where requests arrive)
+		var err error
+		refused := false
+		func() {
+			defer func() {
+				if recover() != nil {
+					refused = true
+				}
+			}()
+			if op.kind == "batch" {
+				b := sess.NewBatch(op.batchType)
+				for _, en := range op.entries {
+					b.Query(en.stmt, bindArgs(en.binds)...)
+				}
+				b.CustomPayload = op.payload
+				err = sess.ExecuteBatch(b)
+			} else {
+				err = sess.Query(op.stmt, bindArgs(op.binds)...).CustomPayload(op.payload).Exec()
+			}
+		}()
+		if !refused && err == nil {
+			k.Violate("C03", "C03/inexpressible-request-accepted", "%s asked for a custom payload on protocol %d and the call reported success", op.token, proto)
+		}
+		k.Rec("ret %s inexpressible refused=%v err=%s", op.token, refused, ErrClass(err))
+		return
+	}
 	r := &op.resp
 	if op.kind == "batch" {
 		b := sess.NewBatch(op.batchType)
@@ -1239,3 +1299,23 @@ func mixedNames(bs []wireBind) bool {
 	}
 	return some && !all
 }
+
+// wireStepAuth is an authenticator whose exchange takes several steps: step 0 answers the
+// AUTHENTICATE frame, step n the n-th AUTH_CHALLENGE ("challenge-<n>").
+type wireStepAuth struct{ step int }
+
+func wireStepToken(step int) string {
+	if step == 0 {
+		return "step-0"
+	}
+	return fmt.Sprintf("step-%d:challenge-%d", step, step)
+}
+
+func (a wireStepAuth) Challenge(req []byte) ([]byte, gocql.Authenticator, error) {
+	if a.step > 0 && string(req) != fmt.Sprintf("challenge-%d", a.step) {
+		return nil, nil, fmt.Errorf("step %d: unexpected challenge %q", a.step, req)
+	}
+	return []byte(wireStepToken(a.step)), wireStepAuth{step: a.step + 1}, nil
+}
+
+func (a wireStepAuth) Success(data []byte) error { return nil }
